@@ -510,6 +510,7 @@ class C15(Prop):
                 fails.append(("answer-accepted", "the faithful SELECT echo was not followed by OPERATE: " + where))
             if it == "deliver" and not cbs:
                 fails.append(("answer-accepted", "an acceptable fragment was not delivered: " + where))
+        fails += tr.errors[:1]
         return fails
 
     def nontrivial(self, case, impl):
